@@ -450,6 +450,8 @@ func (c *FnCtx) panicAt(fr *frame, guard, what string) {
 	}
 	if !mayPanic {
 		c.oblige("nopanic", fmt.Sprintf("nopanic@%s", shortPos(c.curPos)), guard, "false", what)
+	} else if c.noPanicIf != "" && !c.prof.IgnorePanics {
+		c.oblige("nopanic", fmt.Sprintf("nopanic_if@%s", shortPos(c.curPos)), guard, "(not "+c.noPanicIf+")", what+" (must be unreachable when the nopanic_if condition held at entry)")
 	}
 }
 
